@@ -350,6 +350,11 @@ func (s *runtimeState) applyCompiled(compiled config.Compiled) error {
 	}
 	s.mu.Lock()
 	defer s.mu.Unlock()
+	// Replay protection outlives a reload: a route that stays HMAC-protected
+	// keeps the nonces it has already honoured.
+	for path, auth := range next.hmacByRoute {
+		auth.AdoptNonces(s.hmacByRoute[path])
+	}
 	s.pullAuthorize = next.pullAuthorize
 	s.workerAuthorize = next.workerAuthorize
 	s.adminAuthorize = next.adminAuthorize
